@@ -21,7 +21,7 @@ from valida.datapath import MapValue, ListValue, MapOrListValue
 
 META = {
     "rule": "H: every sequence of <= depth operations from the operation menu on one shared world (2 schemas with "
-            "8 rules, their conditions/paths/parts, 3 documents); executions are histories, none merged; state = "
+            "9 rules, their conditions/paths/parts, 3 documents); executions are histories, none merged; state = "
             "identity-aware snapshot of the whole world (must stay the single initial state); non-trivial = "
             "history of >= 2 operations whose last result was compared with the fresh-object result. "
             "S: every schedule of 2 threads x 1-2 operations with <= k preemptions at line granularity",
@@ -50,6 +50,7 @@ class World:
         self.part = MapOrListValue(value=self.ab)
         self.mpart = MapValue(key=self.k)
         self.pa = DataPath("a")
+        self.rows = DataPath("tbl", ListValue(), ListValue())
         self.s_cast = Schema([
             Rule(["m"], Value.dtype.equal_to(dict), cast=dict(INT)),
             Rule(["m", "x"], Value.dtype.equal_to(int), cast=dict(INT)),
@@ -61,16 +62,23 @@ class World:
             Rule(self.pa, Value.equal_to(DataPath("b"))),
             Rule([self.part], Value.in_range(lower=DataPath("lo"), upper=5)),
             Rule(["lst", ListValue()], (Value.dtype.equal_to(int) & a) | Value.equal_to("x")),
+            Rule(self.rows, a),
+        ])
+        # a prefix-closed schema for the documentation tree (C20's premise)
+        self.s_doc = Schema([
+            Rule([], Value.dtype.equal_to(dict) & Value.required_keys("a") & Value.allowed_keys("a", "b")),
+            Rule(["a"], Value.dtype.equal_to(list), doc={"description": ["the `a` list"], "examples": []}),
+            Rule(["a", ListValue()], Value.dtype.equal_to(int) & a),
         ])
         self.rules = self.s_cast.rules + self.s_path.rules
         self.d1 = {"m": {"x": "3", "flag": "true"}, "a": 1, "b": 1, "lo": 0, "lst": [1, "x", -2], "n": 4,
-                   "w": {"flag": "3", "x": "true"}}
-        self.d2 = ["3", {"flag": "FALSE"}, [1, 2], 7, {"flag": "3"}]
-        self.d3 = Data({"a": 2, "b": [1, 2], "m": {"x": "abc"}})
+                   "w": {"flag": "3", "x": "true"}, "tbl": [[1, 2], [3, 4], [5, 6]]}
+        self.d2 = ["3", {"flag": "FALSE"}, [1, 2], 7, {"flag": "3"}, [3, 4]]
+        self.d3 = Data({"a": 2, "b": [1, 2], "m": {"x": "abc"}, "tbl": [[7], [8, 9]]})
         self.docs = [self.d1, self.d2, self.d3]
 
     def roots(self):
-        return [self.a, self.b, self.ab, self.k, self.part, self.mpart, self.pa, self.s_cast, self.s_path,
+        return [self.a, self.b, self.ab, self.k, self.part, self.mpart, self.pa, self.rows, self.s_cast, self.s_path, self.s_doc,
                 self.d1, self.d2, self.d3]
 
 
@@ -101,9 +109,10 @@ def menu():
         ops.append(("part.filter", di, lambda w, di=di: obs_filtered(w.part.filter(w.docs[di]))))
         ops.append(("get a", di, lambda w, di=di: vsnap(w.pa.get_data(w.docs[di])) if di != 1 else vsnap(w.pa.get_data(w.docs[di], return_paths=True))))
         ops.append(("get part paths", di, lambda w, di=di: vsnap(DataPath(w.part).get_data(w.docs[di], return_paths=True))))
+        ops.append(("get rows", di, lambda w, di=di: vsnap((w.rows if di != 1 else DataPath(ListValue(), ListValue())).get_data(w.docs[di], return_paths=(di == 0)))))
         ops.append(("validate cast", di, lambda w, di=di: obs_validated(w.s_cast.validate(w.docs[di]))))
         ops.append(("validate path", di, lambda w, di=di: obs_validated(w.s_path.validate(w.docs[di]))))
-        for ri in range(8):
+        for ri in range(9):
             ops.append(("test r%d" % ri, di, lambda w, di=di, ri=ri: obs_ruletest(w.rules[ri].test(w.docs[di]))))
     ops.append(("filter k", 0, lambda w: obs_filtered(w.k.filter(w.d1))))
     ops.append(("mpart.filter", 2, lambda w: obs_filtered(w.mpart.filter(w.d3))))
@@ -114,7 +123,8 @@ def menu():
     ops.append(("to_json_like", None, lambda w: vsnap([w.ab.to_json_like(), w.k.to_json_like(), w.pa.to_json_like(),
                                                        w.rules[7].condition.to_json_like()])))
     ops.append(("len/rules", None, lambda w: (len(w.s_cast), len(w.s_path), len(w.s_cast.rules), len(w.rules[1].path))))
-    ops.append(("to_tree", None, lambda w: len(w.s_path.to_tree())))
+    ops.append(("to_tree", None, lambda w: (len(w.s_doc.to_tree()), len(w.s_doc.to_tree(nested=True)),
+                                            [len(n.get("children", [])) for n in w.s_doc.to_tree(nested=True)])))
     ops.append(("repr", None, lambda w: (repr(w.s_cast.rules[0]), repr(w.part), repr(w.ab), repr(w.pa))))
     return ops
 
